@@ -70,8 +70,11 @@ func (c *connection) onClose() error {
 	c.force(closing, user)
 
 	// user code should actively close the connection to recycle resources.
-	// poller already detached operator
-	return c.closeCallback(true, false)
+	// Usually the poller already detached the operator, but closeBy(user) also fails
+	// when another user Close/Detach won the race and has not got as far as detaching;
+	// if this call then takes the processing lock, it is the one that has to detach
+	// (FDOperator.detached makes the second attempt a no-op).
+	return c.closeCallback(true, true)
 }
 
 // closeBuffer recycle input & output LinkBuffer.
